@@ -131,14 +131,29 @@ class Impl:
                 registry.register(b.cls)
                 fld = getattr(self, "mixin_field", "state")
                 ns = {"state_machine_name": f"{b.cls.__module__}.{b.cls.__name__}",
-                      "bind_events_as_methods": True, "_prov": "model", fld: self.stored,
+                      "bind_events_as_methods": True, "_prov": "model",
                       "state_field_name": fld}
                 from .spec import _mk
                 for (pp, nn, ff) in b.m.provided:
                     if pp == "model":
                         ns[nn] = _mk(nn, ff)
                 self.state_field = fld
-                self.model = type("MixModel", (MachineMixin,), ns)()
+                # The model class derives from another mixed-in model class (other machine,
+                # other state field) that was instantiated first, and it loads its stored state
+                # in the __init__ of a further base class listed after the mixin: what the
+                # parent resolved is the parent's business, and the machine is built over the
+                # loaded model.
+                decoy = _decoy_machine()
+                parent = type("ParentModel", (MachineMixin,), {
+                    "state_machine_name": f"{decoy.__module__}.{decoy.__name__}",
+                    "state_field_name": "parent_state", "parent_state": None, "_prov": "model"})
+                parent()
+                stored = self.stored
+
+                class Record:
+                    def __init__(self):
+                        setattr(self, fld, stored)
+                self.model = type("MixModel", (parent, Record), ns)()
                 self.sm = self.model.statemachine
                 return None
             if self.model is None:
@@ -220,6 +235,20 @@ class Impl:
 
 class _Plain:
     pass
+
+
+_DECOY = []
+
+
+def _decoy_machine():
+    if not _DECOY:
+        from statemachine import State, StateMachine
+        from statemachine.factory import StateMachineMetaclass
+        x, y = State(initial=True), State()
+        _DECOY.append(StateMachineMetaclass("DecoyMixMachine", (StateMachine,),
+                                            {"x": x, "y": y, "flip": x.to(y) | y.to(x),
+                                             "__module__": __name__}))
+    return _DECOY[0]
 
 
 HOSTILE_KW = {k: "user-supplied" for k in ("state", "source", "target", "transition", "model",
